@@ -7,8 +7,9 @@ Family: `frozen_dataclass(cls=None, <bool params>)` whose inner `decorator(cls_)
     with setattr before or after dataclass() is applied),
   * defines copy_with (= replace(self, **kwargs)), deep_copy_with (dict comprehension over fields(self), optional
     deepcopy, optional `if field.init`, constructor type(self) | new_class, merge order of kwargs),
-    validate_types (loop over fields(new_class) | fields(self), optional slice, optional field guard, one
-    assert_value_matches_type(value=getattr(self, field.name), type_=field.type, type_vars={}, ...) per field),
+    validate_types (loop over fields(new_class) | fields(self), optional slice, optional field guard; per field the test
+    `if not hasattr(self, field.name): raise PedanticTypeCheckException(...)` and one
+    assert_value_matches_type(value=getattr(self, field.name), type_=field.type, type_vars={}, ...)),
   * attaches a list of these methods with setattr(new_class, method.__name__, method).
 Everything that is not a parameter of the family must match exactly; otherwise Untranslatable (fail closed)."""
 import ast
@@ -189,7 +190,7 @@ def tr_validate(f):
         bad('loop does not iterate props or a literal slice of props')
     body = lp.body
     guard = 'None'
-    if len(body) == 2 and isinstance(body[0], ast.If) and not body[0].orelse and len(body[0].body) == 1 \
+    if len(body) >= 2 and isinstance(body[0], ast.If) and not body[0].orelse and len(body[0].body) == 1 \
             and isinstance(body[0].body[0], ast.Continue):
         p, truth = field_pred(body[0].test)
         guard = f'(Some ({p}, {coq_bool(not truth)}))'      # checked when the test is false
@@ -198,6 +199,19 @@ def tr_validate(f):
         p, truth = field_pred(body[0].test)
         guard = f'(Some ({p}, {coq_bool(truth)}))'
         body = body[0].body
+    # a field without value is rejected with PedanticTypeCheckException before its value is read (repair of finding
+    # C10-initfalse-nodefault; Model.check_loop has this test built in)
+    if len(body) == 1:
+        bad('the loop reads getattr(self, field.name) without the test `if not hasattr(self, field.name): raise '
+            'PedanticTypeCheckException(...)` (pre-fix shape of finding C10-initfalse-nodefault: a field without value leaks AttributeError)')
+    g = body[0]
+    if not (len(body) == 2 and isinstance(g, ast.If) and not g.orelse and same(g.test, 'not hasattr(self, field.name)')
+            and len(g.body) == 1 and isinstance(g.body[0], ast.Raise) and g.body[0].cause is None
+            and isinstance(g.body[0].exc, ast.Call) and is_name(g.body[0].exc.func, 'PedanticTypeCheckException')
+            and len(g.body[0].exc.args) == 1 and not g.body[0].exc.keywords
+            and isinstance(g.body[0].exc.args[0], (ast.JoinedStr, ast.Constant))):
+        bad('loop body does not start with `if not hasattr(self, field.name): raise PedanticTypeCheckException(<text>)`')
+    body = body[1:]
     if len(body) != 1 or not isinstance(body[0], ast.Expr) or not isinstance(body[0].value, ast.Call):
         bad('loop body is not a single assert_value_matches_type call')
     c = body[0].value
@@ -332,16 +346,19 @@ def translate():
     cb = strip_doc(cw.body)
     if len(cb) != 1 or not same_stmt(cb[0], 'return replace(self, **kwargs)'):
         bad('copy_with is not `return replace(self, **kwargs)`')
+    val_txt = tr_validate(found['validate_types'])
     # `replace`, `dataclass`, `fields`, `deepcopy` must be the library functions
     imports = [dump(n) for n in tree.body if isinstance(n, ast.ImportFrom)]
-    for need in ('from copy import deepcopy', 'from dataclasses import dataclass, fields, replace'):
+    for need in ('from copy import deepcopy', 'from dataclasses import dataclass, fields, replace',
+                 'from pedantic.exceptions import PedanticTypeCheckException'):
         if dump(stmt(need)) not in imports:
             bad(f'import changed: {need}')
     rebound = [n for n in ast.walk(tree) if isinstance(n, (ast.FunctionDef, ast.ClassDef)) and
-               n.name in ('replace', 'dataclass', 'fields', 'deepcopy', 'assert_value_matches_type', 'get_context')]
+               n.name in ('replace', 'dataclass', 'fields', 'deepcopy', 'assert_value_matches_type', 'get_context',
+                          'PedanticTypeCheckException', 'hasattr')]
     rebound += [n for n in ast.walk(tree) if isinstance(n, ast.Name) and isinstance(n.ctx, ast.Store) and
                 n.id in ('replace', 'dataclass', 'fields', 'deepcopy', 'assert_value_matches_type', 'get_context', 'setattr',
-                         'getattr', 'type')]
+                         'getattr', 'type', 'hasattr', 'PedanticTypeCheckException')]
     if rebound:
         bad('a library name is rebound in the module')
 
@@ -355,6 +372,6 @@ def translate():
     out += f'  p_ts := {ts_txt};\n'
     out += '  p_copy := CopyReplace;\n'
     out += f'  p_deep := {tr_deep(found["deep_copy_with"])};\n'
-    out += f'  p_validate := {tr_validate(found["validate_types"])};\n'
+    out += f'  p_validate := {val_txt};\n'
     out += f'  p_methods := {coq_list(methods)} |}}.\n'
     return {UNIT: out}
